@@ -9,7 +9,10 @@ finds no word distinguishing source and result; the number of states equals the
 Myhill–Nerode index computed by an independent Moore refinement (complete result) or
 the number of live residual classes, at least one (partial result); a partial result
 has no dead state unless it is its only state; minimising the result again keeps its
-size; retained names are disjoint frozensets of source states.
+size; retained names are EXACTLY the classes of merged source states (independent Moore
+refinement on the source handed to `_minify`).  PART_REFINE: the real `PartitionRefinement`
+vs. the model's `Part.refine`, on random histories and on every refine call logged inside
+the real `_minify` (partition as a set of sets and returned pairs after every call).
 """
 from __future__ import annotations
 
@@ -27,7 +30,8 @@ RULE = ("cases = (DFA, retain_names) for minify(), plus minify=True paths of uni
         "symmetric difference/complement/to_partial/from_nfa; all DFAs with ≤2 states over {a,b} (quick) and ≤3 "
         "states over {a,b} incl. partial ones (thorough), then shaped random DFAs ≤7 states: unreachable states, "
         "dead states entered explicitly, dead/non-final initial state, empty/universal languages, duplicated "
-        "states, adversarial name pools (-1,-2,… / tuples / frozensets); non-trivial = source has ≥3 reachable "
+        "states, adversarial name pools (-1,-2,… / tuples / frozensets); sequences of 2–4 calls on ONE object (at least one "
+        "with minify=True, whose result is checked for language and minimality); non-trivial = source has ≥3 reachable "
         "states and minimisation merges or removes at least one of them; distinct = distinct encoded sources")
 ASSUMPTIONS = [
     "sources are valid DFAs built through the real constructor; no state is literally None",
@@ -35,6 +39,146 @@ ASSUMPTIONS = [
 ]
 EXPLANATION = ("Theorems C05_* (Props/C05.lean) are about the model of _minify; this run ties the model to the code and "
                "evaluates language preservation and exact minimality on the real results with independent oracles.")
+
+
+# ------------------------------------------------------------------ PartitionRefinement ↔ Part.refine
+class RefineLog:
+    """Context manager: logs every `PartitionRefinement(items)` / `.refine(S)` the real code performs
+    (monkey-patched methods of the real class; the iterable `S` is materialised in its live order).
+    After every call the partition is recorded as a set of sets, and the returned id pairs as the
+    CONTENTS of the two blocks (ids are `id(set)`)."""
+
+    def __init__(self):
+        self.logs = []
+
+    def __enter__(self):
+        from automata.base import utils
+        self.cls = utils.PartitionRefinement
+        self.o_init, self.o_refine = self.cls.__init__, self.cls.refine
+        log = self
+
+        def init(obj, items):
+            items = list(items)
+            log.o_init(obj, items)
+            log.logs.append(dict(items=items, calls=[]))
+
+        def refine(obj, S):
+            S = list(S)
+            out = log.o_refine(obj, S)
+            if log.logs:
+                log.logs[-1]["calls"].append(dict(
+                    S=S, partition={frozenset(b) for b in obj._sets.values()},
+                    pairs=[(frozenset(obj._sets[a]), frozenset(obj._sets[b])) for a, b in out]))
+            return out
+        self.cls.__init__, self.cls.refine = init, refine
+        return self
+
+    def __exit__(self, *exc):
+        self.cls.__init__, self.cls.refine = self.o_init, self.o_refine
+        return False
+
+
+def model_refine(ctx: Ctx, items, sets):
+    """The model's `Part.init items` followed by `refine(S)` for every S (driver PART_REFINE):
+    → (initial partition, [(partition after the call, pairs by content)])."""
+    nm = Names(items)
+    line = ctx.driver("drv_dfa_ops").ask(toks("PART_REFINE", len(items), [nm(x) for x in items], len(sets),
+                                              [[len(S), [nm(x) for x in S]] for S in sets]))
+    t = Toks(line)
+    t.expect("ok")
+    init = {frozenset(b) for b in t.many(t.ints)}
+    steps = []
+    for _ in sets:
+        t.expect("STEP")
+        part = {frozenset(b) for b in t.many(t.ints)}
+        pairs = t.many(lambda: (frozenset(t.ints()), frozenset(t.ints())))
+        steps.append((part, pairs))
+    return nm, init, steps
+
+
+@guarded
+def compare_refine_log(ctx: Ctx, log: dict, replay: dict, origin: str):
+    """One logged PartitionRefinement life (constructor + refine calls) replayed on the model."""
+    items, calls = log["items"], log["calls"]
+    nm, init, steps = model_refine(ctx, items, [c["S"] for c in calls])
+    ctx.stat(origin)
+    ctx.stat("refine_calls_compared", len(calls))
+    enc = lambda part: {frozenset(nm(x) for x in b) for b in part}  # noqa: E731
+    if init != {frozenset(nm(x) for x in set(items))}:
+        ctx.corr_diff("PART_REFINE.init", replay, sorted(map(sorted, [[nm(x) for x in set(items)]])), sorted(map(sorted, init)))
+        return
+    for i, (c, (mpart, mpairs)) in enumerate(zip(calls, steps)):
+        ipart = enc(c["partition"])
+        ipairs = [(frozenset(nm(x) for x in a), frozenset(nm(x) for x in b)) for a, b in c["pairs"]]
+        if ipart != mpart or ipairs != mpairs:
+            ctx.corr_diff("PART_REFINE", dict(replay, call_index=i, items=[nm(x) for x in items],
+                                              sets=[[nm(x) for x in cc["S"]] for cc in calls[: i + 1]]),
+                          dict(partition=sorted(map(sorted, ipart)), pairs=[(sorted(a), sorted(b)) for a, b in ipairs]),
+                          dict(partition=sorted(map(sorted, mpart)), pairs=[(sorted(a), sorted(b)) for a, b in mpairs]))
+            return
+
+
+@guarded
+def do_part_refine(ctx: Ctx, items, sets, origin: str):
+    """Random partition-refinement history on the REAL class vs. the model, plus the specification of
+    `refine` checked on the real class (independent of the model): after refine(S) every old block A
+    with ∅ ≠ A∩S ≠ A is replaced by A∩S and A∖S, every other block is unchanged, and exactly those
+    splits are reported, in the order in which S first hits them."""
+    from automata.base.utils import PartitionRefinement
+    with RefineLog() as lg:
+        P = PartitionRefinement(items)
+        before = [{frozenset(b) for b in P._sets.values()}]
+        for S in sets:
+            P.refine(iter(S))
+            before.append({frozenset(b) for b in P._sets.values()})
+    log = lg.logs[-1]
+    replay = dict(op="part_refine", items=[repr(x) for x in items], sets=[[repr(x) for x in S] for S in sets])
+    ctx.case(("part_refine", tuple(items), tuple(tuple(S) for S in sets)) if len(set(items)) >= 3 and sets else None)
+    # specification on the real class
+    for i, (S, c) in enumerate(zip(sets, log["calls"])):
+        old, new, Sset = before[i], c["partition"], set(S)
+        want = set()
+        want_pairs = []
+        order = []
+        for x in S:
+            A = next(b for b in old if x in b)
+            if A not in order:
+                order.append(A)
+        for A in old:
+            if A & Sset and A - Sset:
+                want |= {frozenset(A & Sset), frozenset(A - Sset)}
+            else:
+                want.add(A)
+        for A in order:
+            if A - Sset:
+                want_pairs.append((frozenset(A & Sset), frozenset(A - Sset)))
+        if new != want or c["pairs"] != want_pairs:
+            ctx.corr_diff("PartitionRefinement.refine-vs-spec", dict(replay, call_index=i),
+                          dict(partition=sorted(map(sorted, new, ), key=repr), pairs=repr(c["pairs"])),
+                          dict(partition=sorted(map(sorted, want), key=repr), pairs=repr(want_pairs)))
+            return
+    compare_refine_log(ctx, log, replay, origin)
+
+
+def run_part_refine(ctx: Ctx, n: int):
+    rng = ctx.rng
+    for _ in range(n):
+        k = rng.randint(0, 9)
+        pool = rng.choice([list(range(k)), list(range(-2, k - 2)), [("s", i) for i in range(k)],
+                           [frozenset({i}) for i in range(k)], ["q%d" % i for i in range(k)]])
+        items = list(pool)
+        rng.shuffle(items)
+        if items and rng.random() < 0.2:
+            items.append(rng.choice(items))  # the constructor takes any iterable
+        sets = []
+        for _ in range(rng.randint(0, 6)):
+            p = rng.choice([0.0, 0.2, 0.5, 0.8, 1.0])
+            S = [x for x in pool if rng.random() < p]
+            rng.shuffle(S)
+            if S and rng.random() < 0.3:
+                S.insert(rng.randrange(len(S) + 1), rng.choice(S))  # duplicates in the iterable
+            sets.append(S)
+        do_part_refine(ctx, items, sets, "part_refine_random")
 
 
 def dead_states(d: DFA):
@@ -50,7 +194,48 @@ def dead_states(d: DFA):
     return set(d.states) - live
 
 
-def check_min_props(ctx: Ctx, what: str, src_machines, spec, R: DFA, replay: dict, alphabet, retain_src=None) -> bool:
+def expected_block_names(transitions, kept, finals, alphabet):
+    """EXACT retained names, computed independently of the library: the classes of the states `kept`
+    (a set) under Myhill–Nerode equivalence in the system where a missing transition or a transition
+    to a state outside `kept` leads to an implicit sink; the class of the sink (the dead kept states)
+    is dropped iff a sink is needed at all.  Moore refinement, brute force."""
+    alphabet = sorted(alphabet)
+    SINK = ("<sink>",)
+    kept = list(kept)
+    keptset = set(kept)
+
+    def step(q, a):
+        if q is SINK:
+            return SINK
+        t = transitions.get(q, {}).get(a, SINK)
+        return t if (t is SINK or t in keptset) else SINK
+    need_sink = any(step(q, a) is SINK for q in kept for a in alphabet)
+    univ = kept + ([SINK] if need_sink else [])
+    cls = {q: int(q is not SINK and q in finals) for q in univ}
+    while True:
+        sig = {q: (cls[q],) + tuple(cls[step(q, a)] for a in alphabet) for q in univ}
+        ids = {}
+        new = {q: ids.setdefault(sig[q], len(ids)) for q in univ}
+        done = len(set(new.values())) == len(set(cls.values()))
+        cls = new
+        if done:
+            break
+    groups = {}
+    for q in kept:
+        groups.setdefault(cls[q], set()).add(q)
+    if need_sink:
+        groups.pop(cls[SINK], None)
+    return {frozenset(g) for g in groups.values()}
+
+
+def kept_for_minify(A: DFA, force_partial=False):
+    reach = _reach(A)
+    if A.allow_partial or force_partial:
+        return (reach - dead_states(A)) | {A.initial_state}
+    return reach
+
+
+def check_min_props(ctx: Ctx, what: str, src_machines, spec, R: DFA, replay: dict, alphabet, expected_names=None) -> bool:
     bad = check_valid(R)
     if bad:
         ctx.prop_fail(f"{what}: result does not validate ({bad})", replay)
@@ -75,22 +260,17 @@ def check_min_props(ctx: Ctx, what: str, src_machines, spec, R: DFA, replay: dic
         ctx.prop_fail(f"{what}: minimising the minimal result changes its size "
                       f"({len(R.states)} → {again[1] if again[0]=='err' else len(again[1].states)})", replay)
         return False
-    if retain_src is not None:
-        names = list(R.states)
-        if not all(isinstance(x, frozenset) and x and x <= set(retain_src) for x in names):
+    if expected_names is not None:
+        names = set(R.states)
+        if names != expected_names:
             # open known finding F16: when every kept state is dead `_minify` returns
             # `empty_language(...)`, whose single state is named 0 instead of the set of merged states
-            f16 = (len(names) == 1 and names[0] == 0 and not isinstance(names[0], frozenset) and not R.final_states
+            f16 = (not expected_names and len(names) == 1 and 0 in names and not R.final_states
                    and langoracle.find_word([R], alphabet, lambda v: v[0]) is None)
-            ctx.prop_fail(f"{what}: retained names are not non-empty sets of source states: {names!r}", replay,
+            ctx.prop_fail(f"{what}: retained names are not exactly the classes of merged source states: got "
+                          f"{sorted(names, key=repr)!r}, the classes are {sorted(expected_names, key=repr)!r}", replay,
                           "C05:retain_names:empty-language-state-0" if f16 else None)
             return bool(f16)
-        seen = set()
-        for x in names:
-            if seen & x:
-                ctx.prop_fail(f"{what}: retained names overlap", replay)
-                return False
-            seen |= x
     return True
 
 
@@ -99,7 +279,11 @@ def do_minify(ctx: Ctx, A: DFA, retain: bool, origin: str):
     drv = ctx.driver("drv_dfa_ops")
     encA, stA, sy = enc_dfa(A)
     replay = dict(op="minify", retain_names=retain, A=repr(A))
-    res = call(lambda: A.minify(retain_names=retain))
+    with RefineLog() as lg:
+        res = call(lambda: A.minify(retain_names=retain))
+    # every PartitionRefinement.refine call the real `_minify` made, replayed on the model's Part.refine
+    for log in lg.logs:
+        compare_refine_log(ctx, log, dict(replay, what="refine calls logged inside _minify"), "minify_refine_log")
     ctx.stat(origin)
     ctx.stat("source_partial" if A.allow_partial else "source_complete")
     if res[0] == "err":
@@ -107,8 +291,12 @@ def do_minify(ctx: Ctx, A: DFA, retain: bool, origin: str):
         ctx.prop_fail(f"minify(retain_names={retain}) raised {res[1]} on a valid DFA", replay)
         return
     R = res[1]
+    exp = None
+    if retain:
+        kept = kept_for_minify(A)
+        exp = expected_block_names(A.transitions, kept, set(A.final_states) & kept, A.input_symbols)
     ok = check_min_props(ctx, f"minify(retain_names={retain})", [A], lambda x: x, R, replay, A.input_symbols,
-                         retain_src=A.states if retain else None)
+                         expected_names=exp)
     rc = reachable_count(A)
     ctx.case(("minify", retain, encA) if ok and rc >= 3 and len(R.states) < rc else None)
     if len(R.states) < rc:
@@ -143,37 +331,88 @@ def _reach(d: DFA):
 
 
 @guarded
-def do_minify_via_op(ctx: Ctx, A: DFA, B: DFA, origin: str):
-    """minify=True paths of other operations: minimality of their results."""
+def do_minify_via_op(ctx: Ctx, A: DFA, B: DFA, origin: str, N=None):
+    """minify=True paths of other operations: language, minimality and — with retain_names=True — the
+    EXACT names of their results.  Expected names: classes (independent Moore refinement) of the source
+    handed to `_minify`: the pre-pass of the table for to_partial / complement, all states of the
+    un-minified retained result for the `_expand_dfa` callers (Boolean operations, from_nfa)."""
     from harness.ops.C04 import OPS
     rng = ctx.rng
-    opname = rng.choice(list(OPS) + ["complement", "to_partial"])
+    opname = rng.choice(list(OPS) + ["complement", "to_partial"]) if N is None else "from_nfa"
     retain = rng.random() < 0.5
     ctx.stat("via_" + opname)
+    exp = None
     if opname in OPS:
         impl_f, spec, _ = OPS[opname]
         res = call(lambda: impl_f(A, B, retain_names=retain, minify=True))
         srcs, sp = [A, B], spec
         replay = dict(op=opname, via=True, retain_names=retain, A=repr(A), B=repr(B))
+        if retain:
+            P = impl_f(A, B, retain_names=True, minify=False)
+            exp = expected_block_names(P.transitions, set(P.states), set(P.final_states), P.input_symbols)
     elif opname == "complement":
         res = call(lambda: A.complement(retain_names=retain, minify=True))
         srcs, sp = [A], (lambda x: not x)
         replay = dict(op=opname, via=True, retain_names=retain, A=repr(A))
-    else:
+        if retain:
+            C = A.to_complete() if A.allow_partial else A
+            kept = _reach(C)
+            exp = expected_block_names(C.transitions, kept, kept - set(C.final_states), C.input_symbols)
+    elif opname == "to_partial":
         res = call(lambda: A.to_partial(retain_names=retain, minify=True))
         srcs, sp = [A], (lambda x: x)
         replay = dict(op=opname, via=True, retain_names=retain, A=repr(A))
+        if retain:
+            kept = kept_for_minify(A, force_partial=True)
+            exp = expected_block_names(A.transitions, kept, set(A.final_states) & kept, A.input_symbols)
+    else:
+        res = call(lambda: DFA.from_nfa(N, retain_names=retain, minify=True))
+        srcs, sp = [N], (lambda x: x)
+        replay = dict(op=opname, via=True, retain_names=retain, N=repr(N))
+        if retain:
+            P = DFA.from_nfa(N, retain_names=True, minify=False)
+            exp = expected_block_names(P.transitions, set(P.states), set(P.final_states), P.input_symbols)
     if res[0] == "err":
         ctx.case(None)
         ctx.prop_fail(f"{opname}(minify=True) raised {res[1]}", replay)
         return
     R = res[1]
-    ok = check_min_props(ctx, f"{opname}(retain_names={retain}, minify=True)", srcs, sp, R, replay, A.input_symbols)
-    ctx.case(("via", opname, retain, repr(A), repr(B)) if ok and len(R.states) >= 2 else None)
+    alphabet = (N if N is not None else A).input_symbols
+    ok = check_min_props(ctx, f"{opname}(retain_names={retain}, minify=True)", srcs, sp, R, replay, alphabet,
+                         expected_names=exp)
+    ctx.case(("via", opname, retain, repr(N if N is not None else A), repr(B)) if ok and len(R.states) >= 2 else None)
+
+
+@guarded
+def do_sequence(ctx: Ctx, d: DFA, b: DFA, steps, origin: str):
+    """Calls on ONE object: every minify=True result is evaluated for language AND minimality; the other
+    steps are executed (they are what may disturb per-object caches) and evaluated by C04."""
+    from harness import dfa_sequences
+
+    def on_dfa(what, srcs, spec, R, replay, minified):
+        if not minified:
+            return True
+        return check_min_props(ctx, what, srcs, spec, R, replay, d.input_symbols)
+    dfa_sequences.run_sequence(ctx, d, b, steps, origin, on_dfa)
+
+
+def run_sequences(ctx: Ctx, n: int):
+    from harness import dfa_sequences
+    rng = ctx.rng
+    for _ in range(n):
+        al = rng.choice(gen.ALPHABETS)
+        d = gen.rand_dfa(rng, 5, al, partial=False if rng.random() < 0.5 else None)
+        b = gen.rand_dfa(rng, 4, al)
+        steps = dfa_sequences.draw_steps(rng)
+        if not any(dfa_sequences.STEPS[s][3] for s in steps):
+            steps.append(rng.choice([s for s in dfa_sequences.STEP_NAMES if dfa_sequences.STEPS[s][3]]))
+        do_sequence(ctx, d, b, steps, "sequence_on_one_object")
 
 
 def run(ctx: Ctx):
     rng = ctx.rng
+    run_part_refine(ctx, ctx.budget(600, 20000))
+    run_sequences(ctx, ctx.budget(500, 10000))
     # 0. corpus: triggers of repaired defects (F1, F19, F16 neighbourhood)
     for A in corpus():
         for retain in (False, True):
@@ -197,6 +436,8 @@ def run(ctx: Ctx):
     for _ in range(ctx.budget(800, 20000)):
         al = rng.choice(gen.ALPHABETS)
         do_minify_via_op(ctx, gen.rand_dfa(rng, 4, al), gen.rand_dfa(rng, 4, al), "random_via_op")
+    for _ in range(ctx.budget(400, 10000)):
+        do_minify_via_op(ctx, None, None, "random_via_from_nfa", N=gen.rand_nfa(rng, 5))
 
 
 def search(ctx: Ctx):
@@ -218,6 +459,7 @@ def search(ctx: Ctx):
         else:
             al = rng.choice(gen.ALPHABETS)
             do_minify_via_op(ctx, gen.rand_dfa(rng, 5, al), gen.rand_dfa(rng, 4, al), "search")
+            run_sequences(ctx, 1)
 
 
 def corpus():
@@ -242,11 +484,29 @@ def replay(ctx: Ctx, path: str) -> int:
     data = json.load(open(path))
     rp = data.get("replay", data)
     env = {"DFA": DFA, "frozenset": frozenset}
-    if rp.get("via"):
+    if rp.get("op") == "part_refine":
+        print("replay: PART_REFINE cases are correspondence-only (model vs. PartitionRefinement); re-run by seed")
+        return 0
+    if rp.get("op") == "sequence":
+        do_sequence(ctx, eval(rp["A"], env), eval(rp["B"], env), rp["steps"], "replay")
+    elif rp.get("via"):
         print("replay: via-operation cases are replayed through C04's replay of the same operands")
-        A = eval(rp["A"], env)
         from harness.ops.C04 import OPS
-        if rp["op"] in OPS:
+        if rp["op"] == "from_nfa":
+            from automata.fa.nfa import NFA
+            N = eval(rp["N"], dict(env, NFA=NFA))
+            exp = None
+            if rp["retain_names"]:
+                P = DFA.from_nfa(N, retain_names=True, minify=False)
+                exp = expected_block_names(P.transitions, set(P.states), set(P.final_states), P.input_symbols)
+            check_min_props(ctx, "from_nfa", [N], lambda x: x, DFA.from_nfa(N, retain_names=rp["retain_names"], minify=True),
+                            rp, N.input_symbols, expected_names=exp)
+            A = None
+        else:
+            A = eval(rp["A"], env)
+        if A is None:
+            pass
+        elif rp["op"] in OPS:
             R = OPS[rp["op"]][0](A, eval(rp["B"], env), retain_names=rp["retain_names"], minify=True)
             check_min_props(ctx, rp["op"], [A, eval(rp["B"], env)], OPS[rp["op"]][1], R, rp, A.input_symbols)
         elif rp["op"] == "complement":
